@@ -77,6 +77,8 @@ def merge_semantics(ctx):
         ws = by_slot.get(slot, [])
         bad = []
         if slot in ("time", "measurement"):
+            ws = [(k, n) for k, n in ws if not (k == "assign" and _utc_normalised(n.value, pu)
+                                                 and norm(n.value).startswith(f"{pt}.{slot}."))]
             for kind, n in ws:
                 if kind != "assign":
                     bad.append(f"`{norm(n, 60)}` is not an assignment through the property setter")
@@ -445,8 +447,23 @@ def utc_before_strip(ctx):
                     and n.targets[0].attr == "time" and ctx.res.type_of(n.targets[0].value, f) == "Point":
                 n_sites += 1
                 ok = _utc_normalised(n.value, f)
+                how = "value is converted with astimezone(timezone.utc) (or is now(utc))"
+                if not ok:
+                    # a later store that normalises the slot on every path to a normal exit
+                    g = ctx.cfg(f, exceptional=False)
+                    obj = norm(n.targets[0].value)
+
+                    def renorm(x, obj=obj, f=f) -> bool:
+                        a = x.ast
+                        return x.kind == "stmt" and isinstance(a, ast.Assign) and len(a.targets) == 1 \
+                            and norm(a.targets[0]) == f"{obj}.time" and _utc_normalised(a.value, f) \
+                            and norm(a.value).startswith(f"{obj}.time.")
+                    ids = g.ids_of(n)
+                    if ids and all(g.postdominated(i, renorm, [g.exit]) for i in ids):
+                        ok = True
+                        how = "every normal path re-stores the slot as <slot>.astimezone(timezone.utc) afterwards"
                 yield Ob("C08.R1", ["C08"], f"{f.qual} | time store | {norm(n, 90)}", ok,
-                         "value is converted with astimezone(timezone.utc) (or is now(utc))" if ok else
+                         how if ok else
                          "stored without astimezone(timezone.utc): the serialiser strips the offset blindly, so a "
                          "non-UTC aware datetime comes back as a different instant", ctx.prog.loc(n))
     if n_sites < 4:
